@@ -278,4 +278,27 @@ def c19_sweep(seed=0, n=80):
     return {"violates": False, "cases": cases}
 
 
-CALLS = {"c19_stdout": c19_stdout, "c19_value": c19_value, "c19_schema": c19_schema, "c19_refuse": c19_refuse, "c19_mixed": c19_mixed, "c19_carry_on": c19_carry_on, "c19_ts_unrepresentable": c19_ts_unrepresentable, "c19_sweep": c19_sweep}
+
+def c19_carry_on_text(pos=1):
+    from flow.record import RecordDescriptor, RecordReader, RecordWriter
+
+    D = RecordDescriptor("c19/t", [("varint", "x"), ("string", "s"), ("uri", "u")] if pos == 1 else [("string", "s"), ("varint", "x"), ("uri", "u")])
+    with tempfile.TemporaryDirectory() as td:
+        p = os.path.join(td, "a.avro")
+        w = RecordWriter("avro://" + p)
+        w.write(D(s="first", x=1, u="http://a"))
+        try:
+            w.write(D(s="bad \ud800" if pos != 2 else "fine", x=2, u="http://b/\udfff" if pos == 2 else "http://b"))
+            outcome = "written"
+        except Exception:
+            outcome = "raised"
+        w.write(D(s="third", x=3, u="http://c"))
+        w.close()
+        try:
+            back = [(r.s, int(r.x)) for r in RecordReader("avro://" + p)]
+        except Exception as e:
+            back = f"reading raised {type(e).__name__}: {e}"
+    ok = outcome == "raised" and back == [("first", 1), ("third", 3)]
+    return {"violates": not ok, "detail": None if ok else f"refused record (text with a lone surrogate) between two accepted ones: {outcome}, read back {back}"}
+
+CALLS = {"c19_carry_on_text": c19_carry_on_text, "c19_stdout": c19_stdout, "c19_value": c19_value, "c19_schema": c19_schema, "c19_refuse": c19_refuse, "c19_mixed": c19_mixed, "c19_carry_on": c19_carry_on, "c19_ts_unrepresentable": c19_ts_unrepresentable, "c19_sweep": c19_sweep}
